@@ -277,8 +277,55 @@ def prop_C02(rep: Report, tier):
             ctx.floor('C02 construction sites', n, fl.get('obligations', 1))
         std_assumptions(rep, ctx)
         tables.range_constants(rep, ctx.facts)
+        privacy_facts(rep, ctx)
+    if tier == 'thorough':
+        run_witnesses(rep)
     rep.explanation = ('every construction of a value of the six range-carrying types (tuple-struct aggregate, including inside the '
                        'unsafe *_unchecked constructors, analysed in the context of each caller) has a count proved inside the documented range')
+
+
+def privacy_facts(rep, ctx):
+    """premise of R-inv: outside the crate values arise only through the crate's constructors"""
+    from .spec import INV
+    n = 0
+    for name, t in ctx.facts.types.items():
+        if t.get('k') == 'adt' and t.get('def') in INV and name == t.get('def'):
+            for f in t['variants'][0]['fields']:
+                n += 1
+                rep.ob(f"E0|private-field|{t['def']}", not f['pub'], f"the representation field of {t['def']} is public: values can be forged", rule='E0-privacy')
+    for d, it in ctx.facts.items.items():
+        if d.endswith('_unchecked'):
+            n += 1
+            rep.ob(f"E0|unsafe-unchecked|{d}", it['unsafe'], f"{d} builds a value without validation but is not an unsafe fn", rule='E0-privacy')
+    if n < 10:
+        raise AnalysisIncomplete(f"privacy rule matched only {n} items")
+
+
+def run_witnesses(rep):
+    """E4: compile_fail witnesses with compiling twins (thorough tier)"""
+    import shutil
+    import subprocess
+    src = os.path.join(VERIF, 'witness')
+    dst = os.path.join(pipeline.WORK, 'witness-run')
+    shutil.rmtree(dst, ignore_errors=True)
+    shutil.copytree(src, dst, ignore=shutil.ignore_patterns('target', 'Cargo.lock'))
+    ct = open(os.path.join(dst, 'Cargo.toml')).read().replace('path = "/repo"', f'path = "{pipeline.REPO}"')
+    open(os.path.join(dst, 'Cargo.toml'), 'w').write(ct)
+    lock = os.path.join(pipeline.REPO, 'Cargo.lock')
+    if os.path.exists(lock):
+        shutil.copy(lock, os.path.join(dst, 'Cargo.lock'))
+    env = dict(os.environ)
+    env['CARGO_NET_OFFLINE'] = 'true'
+    env['CARGO_TARGET_DIR'] = os.path.join(pipeline.WORK, 'witness-target')
+    r = subprocess.run(['cargo', '+nightly', 'test', '--doc', '--offline'], cwd=dst, capture_output=True, text=True, env=env)
+    out = r.stdout + r.stderr
+    tests = re.findall(r'^test (.*?) \.\.\. (\w+)', out, re.M)
+    if len(tests) < 20:
+        raise AnalysisIncomplete('witness crate: fewer than 20 doctests ran: ' + out[-600:])
+    for name, res in tests:
+        rep.ob(f"E4|{name.split(' (line')[0]}|{'fail' if 'compile fail' in name else 'twin'}", res == 'ok',
+               f"witness {name}: {res} (a forged value / unsafe call from outside the crate type-checks, or the twin is broken)", rule='E4-witness')
+    rep.sample({'rule': 'E4 compile_fail witnesses with twins', 'doctests': len(tests)})
 
 
 def prop_contracts(pid, explanation):
